@@ -337,10 +337,10 @@ theorem frameAt_push (x : Frame) (fr : List Frame) (d : Nat) (h : d < fr.length)
 /-- the argument closure for `q`, created inside the body of `h`, is laid out at `pcL`:
     `scope [pcL, n, 0]; q; ret`, lexically after the `opscope` of `h` -/
 def LamAt (code : Code) (entry : Name → Nat) (pcL : Nat) (h : Option Name) (q : Q) : Prop :=
-  code[pcL]? = some (.scope pcL ((compile entry h pcL (pcL+1) q).length + 1) 0) ∧
-  Seg code (pcL+1) (compile entry h pcL (pcL+1) q) ∧
-  code[pcL + 1 + (compile entry h pcL (pcL+1) q).length]? = some .ret ∧
-  scopeOf entry h < pcL
+  code[pcL]? = some (.scope pcL ((compile entry ⟨h, []⟩ pcL (pcL+1) q).length + 1) 0) ∧
+  Seg code (pcL+1) (compile entry ⟨h, []⟩ pcL (pcL+1) q) ∧
+  code[pcL + 1 + (compile entry ⟨h, []⟩ pcL (pcL+1) q).length]? = some .ret ∧
+  scopeOfFn entry h < pcL
 
 /-- the machine's frames and registers realise the closure environment `ρ` of code lexically
     inside function `g`, looked up from the frame at depth `t`: walking `outerindex` from `t`
@@ -351,9 +351,9 @@ inductive EnvRel (code : Code) (entry : Name → Nat) (nf : Nat) (P : Nat → Pr
     List Frame → Nat → Clo → Option Name → Prop where
   | none {fr t g} : EnvRel code entry nf P R fr t .none g
   | mk {fr t g h q ρ f dg pcL d' fd} :
-      resolve (scopeOf entry g) fr t = some (f, dg) → R (f.base + 1) = .clo pcL d' → P (f.base + 1) → d' < dg →
+      resolve (scopeOfFn entry g) fr t = some (f, dg) → R (f.base + 1) = .clo pcL d' → P (f.base + 1) → d' < dg →
       frameAt fr d' = some fd → fd.id < pcL →
-      LamAt code entry pcL h q → q.Closed nf → (q.HasParam → ρ ≠ .none) →
+      LamAt code entry pcL h q → q.Closed nf [] → (q.HasParam → ρ ≠ .none) →
       EnvRel code entry nf P R fr d' ρ h → EnvRel code entry nf P R fr t (.mk h q ρ) g
 
 theorem EnvRel.push {code entry nf P R fr t ρ g} (x : Frame) (h : EnvRel code entry nf P R fr t ρ g) (ht : t < fr.length) :
@@ -367,7 +367,7 @@ theorem EnvRel.push {code entry nf P R fr t ρ g} (x : Frame) (h : EnvRel code e
 
 /-- entering an argument closure whose lexical parent is the frame at depth `d'` -/
 theorem EnvRel.lam {code entry nf P R fr d' ρ h} (x : Frame) (he : EnvRel code entry nf P R fr d' ρ h) (hd : d' < fr.length)
-    (hid : x.id ≠ scopeOf entry h) (hout : x.outer = some d') : EnvRel code entry nf P R (x :: fr) fr.length ρ h := by
+    (hid : x.id ≠ scopeOfFn entry h) (hout : x.outer = some d') : EnvRel code entry nf P R (x :: fr) fr.length ρ h := by
   cases he with
   | none => exact EnvRel.none
   | mk hr hp hP hdd hfd hidd hl hc hpar hrec =>
@@ -391,9 +391,9 @@ theorem EnvRel.monoP {code entry nf} {P P' : Nat → Prop} {R fr t ρ g} (h : En
     exact EnvRel.mk hr hp (hPP _ hP) hd hfd hid hl hc hpar ih
 
 theorem EnvRel.inv_mk {code entry nf P R fr t g h q ρ} (he : EnvRel code entry nf P R fr t (.mk h q ρ) g) :
-    ∃ f dg pcL d' fd, resolve (scopeOf entry g) fr t = some (f, dg) ∧ R (f.base + 1) = .clo pcL d' ∧ P (f.base + 1) ∧ d' < dg ∧
+    ∃ f dg pcL d' fd, resolve (scopeOfFn entry g) fr t = some (f, dg) ∧ R (f.base + 1) = .clo pcL d' ∧ P (f.base + 1) ∧ d' < dg ∧
       frameAt fr d' = some fd ∧ fd.id < pcL ∧
-      LamAt code entry pcL h q ∧ q.Closed nf ∧ (q.HasParam → ρ ≠ .none) ∧ EnvRel code entry nf P R fr d' ρ h := by
+      LamAt code entry pcL h q ∧ q.Closed nf [] ∧ (q.HasParam → ρ ≠ .none) ∧ EnvRel code entry nf P R fr d' ρ h := by
   cases he with
   | mk hr hp hP hd hfd hid hl hc hpar hrec => exact ⟨_, _, _, _, _, hr, hp, hP, hd, hfd, hid, hl, hc, hpar, hrec⟩
 
@@ -401,15 +401,49 @@ theorem EnvRel.inv_mk {code entry nf P R fr t g h q ρ} (he : EnvRel code entry 
     `scope [id, n, 1]; store [id,0]; store [id,1]; load [id,0]; body; ret` with `id = entry f` -/
 structure FuncsOK (code : Code) (defs : Name → Q) (entry : Name → Nat) (nf : Nat) : Prop where
   scope : ∀ f, f < nf → code[entry f]? =
-    some (.scope (entry f) ((compile entry (some f) (entry f) (entry f + 4) (defs f)).length + 4) 1)
+    some (.scope (entry f) ((compile entry ⟨some f, []⟩ (entry f) (entry f + 4) (defs f)).length + 4) 1)
   st0 : ∀ f, f < nf → code[entry f + 1]? = some (.store (entry f) 0)
   st1 : ∀ f, f < nf → code[entry f + 2]? = some (.store (entry f) 1)
   ld0 : ∀ f, f < nf → code[entry f + 3]? = some (.load (entry f) 0)
-  body : ∀ f, f < nf → Seg code (entry f + 4) (compile entry (some f) (entry f) (entry f + 4) (defs f))
-  ret : ∀ f, f < nf → code[entry f + 4 + (compile entry (some f) (entry f) (entry f + 4) (defs f)).length]? = some .ret
-  closed : ∀ f, f < nf → (defs f).Closed nf
+  body : ∀ f, f < nf → Seg code (entry f + 4) (compile entry ⟨some f, []⟩ (entry f) (entry f + 4) (defs f))
+  ret : ∀ f, f < nf → code[entry f + 4 + (compile entry ⟨some f, []⟩ (entry f) (entry f + 4) (defs f)).length]? = some .ret
+  closed : ∀ f, f < nf → (defs f).Closed nf []
 
 /-- static registers (absolute) of the segment `[p, p+len)` of a scope entered at `e`, frame base `b` -/
 def Own (b e p len : Nat) : Nat → Prop := fun a => ∃ i, p ≤ i ∧ i < p + len ∧ a = b + (i - e)
+
+/-- the variables in scope live in read-only registers of the current frame and hold the values
+    the reference environment gives them -/
+def VarsOK (σ : List (Nat × V)) (Γ : List (Nat × Nat)) (R : Regs) (b : Nat) (P : Nat → Prop) : Prop :=
+  ∀ x r, lookup x Γ = some r → ∃ w, lookup x σ = some w ∧ R (b + r) = .v w ∧ P (b + r)
+
+/-- frames and registers realise the environment: the closure chain (`EnvRel`) and the variables -/
+def EnvOK (code : Code) (entry : Name → Nat) (nf : Nat) (P : Nat → Prop) (R : Regs) (fr : List Frame)
+    (ρ : Env) (g : Ctx) : Prop :=
+  EnvRel code entry nf P R fr (fr.length - 1) ρ.clo g.fn ∧ VarsOK ρ.vars g.vars R (base fr) P
+
+theorem EnvOK.congr {code entry nf P R R' fr ρ g} (h : EnvOK code entry nf P R fr ρ g) (heq : EqOn P R R') :
+    EnvOK code entry nf P R' fr ρ g := by
+  refine ⟨h.1.congr heq, ?_⟩
+  intro x r hx
+  obtain ⟨w, h1, h2, h3⟩ := h.2 x r hx
+  exact ⟨w, h1, by rw [← heq _ h3]; exact h2, h3⟩
+
+theorem lookup_of_mem {α : Type} (x : Nat) : ∀ (l : List (Nat × α)), x ∈ l.map (·.1) → ∃ a, lookup x l = some a := by
+  intro l
+  induction l with
+  | nil => intro h; simp at h
+  | cons y l ih =>
+    intro h
+    obtain ⟨y1, y2⟩ := y
+    by_cases hy : y1 = x
+    · exact ⟨y2, by simp [lookup, hy]⟩
+    · have : x ∈ l.map (·.1) := by
+        simp only [List.map_cons, List.mem_cons] at h
+        rcases h with h | h
+        · exact absurd h.symm hy
+        · exact h
+      obtain ⟨a, ha⟩ := ih this
+      exact ⟨a, by simp [lookup, hy, ha]⟩
 
 end Gojq.MiniVM
